@@ -114,8 +114,8 @@ fn one(ctx: &Ctx, out: &mut Out, leg: &str, prog: &[u8], wit: &[u8], origin: &st
 
 fn leg_bytes(ctx: &Ctx, out: &mut Out) {
     let leg = "bytes";
-    // thorough: all 4-byte strings as well (4.3e9 strings x 4 splits)
-    let maxlen = ctx.tier.pick(2usize, 4);
+    // (all 4-byte strings x 4 splits is 1.7e10 pairs, about 3 hours on 16 cores: not run)
+    let maxlen = ctx.tier.pick(2usize, 3);
     for len in 1..=maxlen {
         let total: u64 = 1 << (8 * len);
         let chunk: u64 = if len >= 4 { 65_536 } else { 256 };
